@@ -49,6 +49,11 @@ type vpipe struct {
 	id       int
 	buf      []byte
 	hist     []byte
+	// origin of every byte of buf / hist: writer pipe id and stream offset.
+	// The model identifies bytes by origin; a tamper whose first altered
+	// position happens to carry the same byte value as before is skipped.
+	prov  []uint64
+	hprov []uint64
 	keepHist bool
 	budget   int
 	eager    bool
@@ -94,6 +99,13 @@ func (p *vpipe) Write(b []byte) (int, error) {
 		chunk = chunk[:keep]
 		p.closed = true
 	}
+	for i := range chunk {
+		o := uint64(p.id)<<40 | uint64(p.written+i)
+		p.prov = append(p.prov, o)
+		if p.keepHist {
+			p.hprov = append(p.hprov, o)
+		}
+	}
 	p.written += n
 	p.buf = append(p.buf, chunk...)
 	if p.keepHist {
@@ -126,6 +138,7 @@ func (p *vpipe) Read(b []byte) (int, error) {
 	}
 	copy(b, p.buf[:n])
 	p.buf = p.buf[n:]
+	p.prov = p.prov[n:]
 	return n, nil
 }
 
@@ -140,6 +153,8 @@ func (p *vpipe) clone(id int) *vpipe {
 	q := newPipe(id)
 	q.buf = append([]byte(nil), p.buf...)
 	q.hist = append([]byte(nil), p.hist...)
+	q.prov = append([]uint64(nil), p.prov...)
+	q.hprov = append([]uint64(nil), p.hprov...)
 	q.keepHist = p.keepHist
 	q.frag = p.frag
 	q.written = p.written
@@ -192,6 +207,7 @@ type c11 struct {
 	nCase    int
 	nKey     int
 	nMach    int
+	nJunk    uint64
 	keys     map[string]*kinfo
 	stats    map[string]int
 }
@@ -642,46 +658,81 @@ func (c *c11) readSplit(v *vmach, from *vpipe) string {
 
 // ---- pipe tampering ---------------------------------------------------------
 
-func (c *c11) corrupt(p *vpipe, off int, x byte) {
-	if off < 0 || off >= len(p.buf) || x == 0 {
-		return
+// install replaces the unread bytes of p unless the first position whose
+// origin changes carries the same value as before (a 1/256 coincidence the
+// symbolic model cannot see); reports whether the change was made.
+func (c *c11) install(p *vpipe, nb []byte, np []uint64) bool {
+	for i := 0; i < len(nb) && i < len(p.buf); i++ {
+		if np[i] != p.prov[i] {
+			if nb[i] == p.buf[i] {
+				c.stats["t_skipped_coincidence"]++
+				return false
+			}
+			break
+		}
 	}
-	p.buf = append([]byte(nil), p.buf...)
-	p.buf[off] ^= x
+	p.buf, p.prov = nb, np
+	return true
+}
+
+func (c *c11) corrupt(p *vpipe, off int, x byte) bool {
+	if off < 0 || off >= len(p.buf) || x == 0 {
+		return false
+	}
+	nb := append([]byte(nil), p.buf...)
+	np := append([]uint64(nil), p.prov...)
+	nb[off] ^= x
+	c.nJunk++
+	np[off] = 1<<63 | c.nJunk
+	if !c.install(p, nb, np) {
+		return false
+	}
 	c.stats["t_corrupt"]++
 	c.pf("corrupt %d off=%d xor=%d", p.id, off, x)
+	return true
 }
 
-func (c *c11) trunc(p *vpipe, keep int) {
+func (c *c11) trunc(p *vpipe, keep int) bool {
 	if keep < 0 || keep > len(p.buf) {
-		return
+		return false
 	}
 	p.buf = append([]byte(nil), p.buf[:keep]...)
+	p.prov = append([]uint64(nil), p.prov[:keep]...)
 	c.stats["t_trunc"]++
 	c.pf("trunc %d keep=%d", p.id, keep)
+	return true
 }
 
-func (c *c11) del(p *vpipe, at, n int) {
+func (c *c11) del(p *vpipe, at, n int) bool {
 	if at < 0 || n < 0 || at+n > len(p.buf) {
-		return
+		return false
 	}
-	nb := append([]byte(nil), p.buf[:at]...)
-	nb = append(nb, p.buf[at+n:]...)
-	p.buf = nb
+	nb := append(append([]byte(nil), p.buf[:at]...), p.buf[at+n:]...)
+	np := append(append([]uint64(nil), p.prov[:at]...), p.prov[at+n:]...)
+	if !c.install(p, nb, np) {
+		return false
+	}
 	c.stats["t_del"]++
 	c.pf("del %d at=%d n=%d", p.id, at, n)
+	return true
 }
 
-func (c *c11) inject(p *vpipe, at int, src *vpipe, from, n int) {
+func (c *c11) inject(p *vpipe, at int, src *vpipe, from, n int) bool {
 	if at < 0 || at > len(p.buf) || from < 0 || n < 0 || from+n > len(src.hist) {
-		return
+		return false
 	}
 	nb := append([]byte(nil), p.buf[:at]...)
 	nb = append(nb, src.hist[from:from+n]...)
 	nb = append(nb, p.buf[at:]...)
-	p.buf = nb
+	np := append([]uint64(nil), p.prov[:at]...)
+	np = append(np, src.hprov[from:from+n]...)
+	np = append(np, p.prov[at:]...)
+	if !c.install(p, nb, np) {
+		return false
+	}
 	c.stats["t_inject"]++
 	c.pf("inject %d at=%d src=%d from=%d n=%d", p.id, at, src.id, from, n)
+	return true
 }
 
 // ---------------------------------------------------------------------------
@@ -958,20 +1009,23 @@ func (c *c11) caseStreamTamper(pre int, sizes []int, mode string) {
 		try(func(pp *vpipe, ni, nr *vmach) { c.inject(pp, 0, ni.out, base+o0, encHeaderSize) })
 		// reorder: second record before the first
 		try(func(pp *vpipe, ni, nr *vmach) {
-			c.del(pp, o1, l1)
-			c.inject(pp, 0, ni.out, base+o1, l1)
+			if c.del(pp, o1, l1) {
+				c.inject(pp, 0, ni.out, base+o1, l1)
+			}
 		})
 		// drop the first record entirely
 		try(func(pp *vpipe, ni, nr *vmach) { c.del(pp, o0, l0) })
 		// header of record 1 with the body of record 0
 		try(func(pp *vpipe, ni, nr *vmach) {
-			c.del(pp, o0, encHeaderSize)
-			c.inject(pp, 0, ni.out, base+o1, encHeaderSize)
+			if c.del(pp, o0, encHeaderSize) {
+				c.inject(pp, 0, ni.out, base+o1, encHeaderSize)
+			}
 		})
 		// body of record 1 under the header of record 0
 		try(func(pp *vpipe, ni, nr *vmach) {
-			c.del(pp, o0+encHeaderSize, l0-encHeaderSize)
-			c.inject(pp, o0+encHeaderSize, ni.out, base+o1+encHeaderSize, l1-encHeaderSize)
+			if c.del(pp, o0+encHeaderSize, l0-encHeaderSize) {
+				c.inject(pp, o0+encHeaderSize, ni.out, base+o1+encHeaderSize, l1-encHeaderSize)
+			}
 		})
 		// reflection: the peer's own ciphertext in front / instead
 		try(func(pp *vpipe, ni, nr *vmach) { c.inject(pp, 0, nr.out, len(nr.out.hist)-len(nr.out.buf), len(nr.out.buf)) })
@@ -1274,12 +1328,24 @@ func (c *c11) caseConn(tamper string, wrongKey bool) {
 		conns:         make(chan maybeConn, 1),
 		quit:          make(chan struct{}),
 	}
-	go l.doHandshake(&vconn{r: i2r, w: r2i})
+	go func() {
+		defer func() {
+			if r := recover(); r != nil {
+				l.conns <- maybeConn{err: errors.New("verif: panic in doHandshake")}
+			}
+		}()
+		l.doHandshake(&vconn{r: i2r, w: r2i})
+	}()
 
 	tpub, _ := btcec.ParsePubKey(target.pub)
 	addr := &lnwire.NetAddress{IdentityKey: tpub, Address: &net.TCPAddr{IP: net.IPv4(127, 0, 0, 1), Port: 9735}}
 	dch := make(chan connRes, 1)
 	go func() {
+		defer func() {
+			if r := recover(); r != nil {
+				dch <- connRes{nil, errors.New("verif: panic in Dial")}
+			}
+		}()
 		conn, err := Dial(&keychain.PrivKeyECDH{PrivKey: is.priv}, addr, time.Second,
 			func(network, address string, timeout time.Duration) (net.Conn, error) {
 				return &vconn{r: r2i, w: i2r}, nil
@@ -1301,6 +1367,12 @@ func (c *c11) caseConn(tamper string, wrongKey bool) {
 		r2i.closePipe()
 	}
 	dres, ares := classifyConn(d.err), classifyConn(a.err)
+	if d.err != nil && strings.Contains(d.err.Error(), "verif: panic") {
+		dres = "panic"
+	}
+	if a.err != nil && strings.Contains(a.err.Error(), "verif: panic") {
+		ares = "panic"
+	}
 	if a.err != nil && strings.Contains(a.err.Error(), "listener stuck") {
 		ares = "stuck"
 	}
@@ -1411,69 +1483,73 @@ func TestVerifC11(t *testing.T) {
 	}
 
 	// handshake
-	for i := 0; i < rep(6, 60); i++ {
+	for i := 0; i < rep(12, 150); i++ {
 		c.caseHSWrongKey(i)
 	}
-	for i := 0; i < rep(3, 12); i++ {
+	for i := 0; i < rep(6, 40); i++ {
 		c.caseHSTamper()
 	}
-	for i := 0; i < rep(3, 30); i++ {
+	for i := 0; i < rep(6, 100); i++ {
 		c.caseHSMix()
 	}
 	// Dial / doHandshake / Conn
-	for i := 0; i < rep(4, 40); i++ {
+	for i := 0; i < rep(8, 100); i++ {
 		c.caseConn("none", false)
 	}
-	for i := 0; i < rep(3, 30); i++ {
+	for i := 0; i < rep(4, 60); i++ {
 		c.caseConn("none", true)
 	}
-	for i := 0; i < rep(12, 200); i++ {
+	for i := 0; i < rep(40, 800); i++ {
 		c.caseConn("flip", false)
 	}
-	for i := 0; i < rep(8, 120); i++ {
+	for i := 0; i < rep(24, 400); i++ {
 		c.caseConn("cut", false)
 	}
-	for i := 0; i < rep(6, 30); i++ {
+	for i := 0; i < rep(10, 80); i++ {
 		c.caseConn("flipver", false)
 	}
 	// partial writes
 	for _, l := range []int{0, 1, 2, 15, 16, 17, 18, 100, 65534, 65535} {
 		c.caseFlush(l)
 	}
-	if thorough {
-		for i := 0; i < 30; i++ {
-			c.caseFlush(c.rng.Intn(65536))
-		}
+	for i := 0; i < rep(6, 120); i++ {
+		c.caseFlush(c.rng.Intn(65536) >> uint(c.rng.Intn(12)))
 	}
 	// tampering with transport ciphertext
 	sizeSets := [][]int{{0, 0, 3}, {1, 2, 0}, {2, 17, 5}, {16, 1, 1}, {17, 0, 40}}
 	for i, m := range []string{"corrupt", "trunc", "del", "splice"} {
-		for j := 0; j < rep(2, len(sizeSets)); j++ {
+		for j := 0; j < rep(4, 6*len(sizeSets)); j++ {
 			c.caseStreamTamper([]int{0, 3, 2, 1, 5}[(i+j)%5], sizeSets[(i+j+int(seed))%len(sizeSets)], m)
 		}
 	}
 	// near and across a key rotation (500 messages = 1000 encryptions)
 	pres := []int{499, 500}
 	if thorough {
-		pres = []int{498, 499, 500, 501, 999, 1000}
+		pres = []int{498, 499, 500, 501, 999, 1000, 1499, 1500}
 	}
 	for i, pre := range pres {
 		ms := []string{"corrupt", "splice", "trunc", "del"}
-		c.caseStreamTamper(pre, sizeSets[(i+int(seed))%len(sizeSets)], ms[i%4])
+		c.caseStreamTamper(pre, sizeSets[(i+int(seed))%len(sizeSets)], ms[(i+int(seed))%4])
+		c.caseStreamTamper(pre, sizeSets[(i+1+int(seed))%len(sizeSets)], ms[(i+1+int(seed))%4])
 		if thorough {
-			c.caseStreamTamper(pre, sizeSets[(i+1+int(seed))%len(sizeSets)], ms[(i+1)%4])
+			c.caseStreamTamper(pre, sizeSets[(i+2+int(seed))%len(sizeSets)], ms[(i+2+int(seed))%4])
+			c.caseStreamTamper(pre, sizeSets[(i+3+int(seed))%len(sizeSets)], ms[(i+3+int(seed))%4])
 		}
 	}
-	for i := 0; i < rep(2, 20); i++ {
+	for i := 0; i < rep(4, 60); i++ {
 		c.caseDesync()
 	}
 	// long streams crossing at least three rotations in both directions
 	c.caseStream(1520+c.rng.Intn(60), 0.012)
-	for i := 0; i < rep(1, 6); i++ {
+	c.caseStream(1510+c.rng.Intn(600), 0.004)
+	for i := 0; i < rep(3, 30); i++ {
 		c.caseStream(rep(300, 2100)+c.rng.Intn(200), float64(rep(30, 8))*0.001)
 	}
 	if thorough {
-		c.caseStream(4100, 0.002)
+		for i := 0; i < 4; i++ {
+			c.caseStream(4100+c.rng.Intn(1000), 0.002)
+		}
+		c.caseStream(10100, 0.001)
 	}
 
 	// input distribution summary
